@@ -1,0 +1,87 @@
+//! Verification hooks (compiled only with the `verif-hooks` cargo feature).
+//!
+//! A process-global callback `fn(point, arg) -> u64` can be installed by an
+//! external checker. Every hook point calls it on the thread that reached the
+//! point; with no callback installed a point returns 0 and does nothing.
+//! A non-zero return asks the call site to take its alternative branch
+//! (stop the loop / inject a failure / use a forced value).
+
+use std::sync::atomic::{AtomicUsize, Ordering};
+
+/// Callback type: (point id, argument) -> decision
+pub type HookFn = fn(u32, u64) -> u64;
+
+static HOOK: AtomicUsize = AtomicUsize::new(0);
+
+/// Top of every iteration of `Server::run`'s loop; return 1 = leave `run`
+pub const LOOP_TOP: u32 = 1;
+/// Sweeper: after its sleep, before a pass
+pub const SWEEP_BEGIN: u32 = 10;
+/// Sweeper: between the read-locked collect and the write-locked delete of a shard (arg = db * 16 + shard)
+pub const SWEEP_BETWEEN: u32 = 11;
+/// Sweeper: after a complete pass
+pub const SWEEP_END: u32 = 12;
+/// RDB writer: before `storage.get` of a key
+pub const RDB_KEY_GET: u32 = 20;
+/// RDB writer: between `get` and `ttl` of a key
+pub const RDB_KEY_TTL: u32 = 21;
+/// RDB writer: before the key/value is written
+pub const RDB_KEY_WRITE: u32 = 22;
+/// RDB writer: sorted-set arm, between `len()` and the item read (arg = len)
+pub const RDB_ZSET_MID: u32 = 23;
+/// RDB writer: every raw write (arg = nbytes); return 1 = fail this write
+pub const RDB_WRITE: u32 = 24;
+/// RDB save: before / after the rename of the temp file
+pub const RDB_RENAME_BEFORE: u32 = 25;
+pub const RDB_RENAME_AFTER: u32 = 26;
+/// BGSAVE thread: first / last statement
+pub const BGSAVE_BEGIN: u32 = 27;
+pub const BGSAVE_END: u32 = 28;
+/// Skip list: level draw; return 0 = draw randomly, l + 1 = use level l
+pub const SKIP_LEVEL: u32 = 30;
+
+/// Install the process-global callback
+pub fn install(f: HookFn) {
+    HOOK.store(f as usize, Ordering::SeqCst);
+}
+
+/// Remove the callback
+pub fn uninstall() {
+    HOOK.store(0, Ordering::SeqCst);
+}
+
+/// Reach a hook point
+#[inline]
+pub fn point(id: u32, arg: u64) -> u64 {
+    let p = HOOK.load(Ordering::Acquire);
+    if p == 0 {
+        0
+    } else {
+        let f: HookFn = unsafe { std::mem::transmute::<usize, HookFn>(p) };
+        f(id, arg)
+    }
+}
+
+/// One row of `Server::verif_conn_states`
+#[derive(Debug, Clone)]
+pub struct ConnStateRow {
+    pub id: u64,
+    /// "connected" | "authenticated" | "blocked" | "closing"
+    pub state: &'static str,
+    pub db: usize,
+    pub in_multi: bool,
+    pub queued: usize,
+    pub watched: usize,
+    pub blocked_keys: Vec<(usize, Vec<u8>)>,
+    pub is_monitoring: bool,
+}
+
+/// One waiter in `BlockingManager::verif_snapshot`
+#[derive(Debug, Clone)]
+pub struct WaiterRow {
+    pub db: usize,
+    pub key: Vec<u8>,
+    pub conn_id: u64,
+    pub has_deadline: bool,
+    pub op: &'static str,
+}
